@@ -7,7 +7,7 @@
 //!
 //! Case lines: `e2e <family> <k=v params...>`; the families of a property are generated for that property only
 //! (`family_of`); each family's file documents its parameters and its ORACLE:
-//!   C03 partitioner (partitioner.rs)
+//!   C03 partitioner (partitioner.rs)   C04 ring (c04ring.rs)
 //!   C06 retry     (retry.rs)      C07 page      (page.rs)     C10 break   (brk.rs)
 //!   C12 route     (route.rs) + tablet (tablet.rs)              C14 evict   (evict.rs)
 //!   C13 spec      (spec.rs)                                    C15 learn   (c15learn.rs)
@@ -19,6 +19,8 @@ use crate::rng::Rng;
 use crate::{Ctx, Tier};
 
 pub mod brk;
+pub mod c10_samenode;
+pub mod c04ring;
 pub mod c15learn;
 pub mod common;
 pub mod evict;
@@ -39,6 +41,7 @@ pub mod tsconn;
 pub fn family_of(pid: &str) -> Option<&'static str> {
     match pid {
         "C03" => Some("partitioner"),
+        "C04" => Some("ring"),
         "C06" => Some("retry"),
         "C07" => Some("page"),
         "C10" => Some("break"),
@@ -56,7 +59,11 @@ pub fn family_of(pid: &str) -> Option<&'static str> {
 pub fn generate(pid: &str, rng: &mut Rng, tier: Tier, emit: &mut dyn FnMut(String)) {
     match family_of(pid) {
         Some("retry") => retry::generate(rng, tier, emit),
-        Some("break") => brk::generate(rng, tier, emit),
+        Some("ring") => c04ring::generate(rng, tier, emit),
+        Some("break") => {
+            brk::generate(rng, tier, emit);
+            c10_samenode::generate(rng, tier, emit);
+        }
         Some("evict") => evict::generate(rng, tier, emit),
         Some("learn") => c15learn::generate(rng, tier, emit),
         Some("keyspace") => keyspace::generate(rng, tier, emit),
@@ -83,7 +90,9 @@ pub fn run(_pid: &str, case: &str, ctx: &mut Ctx) -> String {
     }
     match words[1] {
         "retry" => retry::run(&words[2..], ctx),
+        "ring" => c04ring::run(&words[2..], ctx),
         "break" => brk::run(&words[2..], ctx),
+        "samenode" => c10_samenode::run(&words[2..], ctx),
         "evict" => evict::run(&words[2..], ctx),
         "learn" => c15learn::run(&words[2..], ctx),
         "keyspace" => keyspace::run(&words[2..], ctx),
